@@ -32,6 +32,9 @@ UNITS = {
     'SERFIX': dict(template='serfix.rs', rlimit=30),
     'VALUESER': dict(template='valueser.rs', rlimit=30),
     'ACCSESS': dict(template='accsess.rs', rlimit=30),
+    'ACCDELEG': dict(template='accdeleg.rs', rlimit=30),
+    'TXNDELEG': dict(template='txndeleg.rs', rlimit=30),
+    'LCONNDELEG': dict(template='lconndeleg.rs', rlimit=30),
     'LINKATTACH': dict(template='linkattach.rs', rlimit=30),
     'RESUME': dict(template='resume.rs', rlimit=30),
     'DISPOSER': dict(template='disposer.rs', rlimit=30),
@@ -97,7 +100,7 @@ ENGINE = 'that the tokio engine tasks (select! loops, mpsc channels) call these 
 PROPS = {
     'C02': dict(
         probes=[dict(name='cci_session_agreement', kind='agreement', target='fe2o3_amqp::session::consecutive_chunk_indices', args=['C02.cci-session'], claim='session::consecutive_chunk_indices (iterator adapters; enters unit SESSION as an assumed contract) agrees with its oracle: a new run starts exactly where the next id is not the previous + 1', bound='every ascending sequence of <= 6 ids over {0,1,2,3,5,6,2^32-2,2^32-1} (3003 sequences), real function through the verif-hooks facade'), dict(name='cci_receiver_agreement', kind='agreement', target='fe2o3_amqp::link::receiver_link::consecutive_chunk_indices', args=['C02.cci-receiver'], claim='receiver_link::consecutive_chunk_indices agrees with its oracle: a new run starts exactly where the id is not consecutive OR the per-delivery rcv-settle-mode changes', bound='every ascending sequence of <= 6 ids over 8 values x every assignment of {unset, first, second} (1.47 M cases), real function through the verif-hooks facade')],
-        units=['SESSION', 'SENDSPLIT', 'LINK', 'LINKATTACH', 'RESUME', 'DISPOSER', 'DELIVFUT', 'RECVAPI', 'WIRING', 'ACCLINK', 'LINKAPI'], kani=[], level='proof', title='Settlement',
+        units=['SESSION', 'SENDSPLIT', 'LINK', 'LINKATTACH', 'RESUME', 'DISPOSER', 'DELIVFUT', 'RECVAPI', 'WIRING', 'ACCLINK', 'LINKAPI', 'ACCDELEG', 'TXNDELEG'], kani=[], level='proof', title='Settlement',
         assumptions=[ASYNC, ENGINE,
             'session::consecutive_chunk_indices and util::is_consecutive are under contract in unit SESSION (rule R34: the windows(2).enumerate().filter_map(..).collect() chain is written as the loop the std adapters perform, closure body verbatim); the agreement probe cci_session_agreement still runs the real function against an independent oracle (bounded)',
             'ReceiverLink::dispose_all (batch disposal: sort, drop what is no longer unsettled, one disposition per maximal run) and receiver_link::consecutive_chunk_indices are under contract in unit LINK (rule R34; `sort_by_key` / `retain` are stand-ins taking the closures as the code has them); the agreement probe cci_receiver_agreement still runs the real run splitter against an independent oracle (bounded)',
@@ -187,13 +190,13 @@ PROPS = {
             'a NON-transfer performative whose encoding exceeds the frame is refused with FramingError since fix 542518b ([C06.transport.non-transfer-whole]); nothing establishes that the engines handle that error gracefully (the connection engine treats it as a transport error)',
             'decoding under arbitrary read fragmentation is tokio_util LengthDelimitedCodec + FramedRead (third party), not verified']),
     'C01': dict(
-        units=['FRAMEENC', 'SESSION', 'SENDSPLIT', 'LINK', 'REASM', 'SESSENG', 'CONNENG', 'RESUME', 'BYTEREADER', 'WIRING', 'ACCLINK', 'LINKAPI', 'READERS'],
+        units=['FRAMEENC', 'SESSION', 'SENDSPLIT', 'LINK', 'REASM', 'SESSENG', 'CONNENG', 'RESUME', 'BYTEREADER', 'WIRING', 'ACCLINK', 'LINKAPI', 'READERS', 'ACCDELEG', 'TXNDELEG'],
         lemmas={'SENDSPLIT': ['lemma_link_expected', 'lemma_link_mids'], 'FRAMEENC': ['lemma_expected_properties', 'lemma_mids_payload']}, kani=[], level='proof', title='End-to-end delivery (sequential stages only)',
         assumptions=[ASYNC, ENGINE,
             'only the sequential stages are under contract: session hold-back/stamping (SESSION) and frame splitting (FRAMEENC); link-level split, reassembly and the codec round trip are separate units where built',
             'mpsc hand-offs, engine select! loops, credit/window liveness under scheduling, and all configurations x schedules are NOT decided']),
     'C08': dict(
-        units=['LINKFLOW', 'SENDSPLIT', 'PRODUCER', 'ACCSESS', 'SESSION', 'WIRING', 'ACCLINK', 'LINK'], kani=[], level='proof', title='Sender link credit',
+        units=['LINKFLOW', 'SENDSPLIT', 'PRODUCER', 'ACCSESS', 'SESSION', 'WIRING', 'ACCLINK', 'LINK', 'TXNDELEG'], kani=[], level='proof', title='Sender link credit',
         lemmas={'LINKFLOW': ['lemma_c08_consume_preserves_limit', 'lemma_c08_flow_establishes_limit']},
         assumptions=[ASYNC,
             'NOT DECIDED: "a send waiting for credit completes however the grant races with the wait" (notified().await vs notify_waiters is a two-task schedule property; no thread model in either verifier)',
@@ -201,14 +204,14 @@ PROPS = {
             'SenderLink::send_payload is under contract in unit SENDSPLIT with get_delivery_tag_or_detached (the tokio::select! between consume(1) and the detach notification) as a stand-in: one credit per delivery, no transfer without a credit',
             'TryConsume::try_consume (transaction feature) duplicates consume_link_credit and is not under contract']),
     'C09': dict(
-        units=['LINKFLOW', 'SESSION', 'LINK', 'LINKATTACH', 'REASM', 'DISPOSER', 'WIRING', 'ACCLINK', 'LINKAPI'], kani=[], level='proof', title='Receiver link credit',
+        units=['LINKFLOW', 'SESSION', 'LINK', 'LINKATTACH', 'REASM', 'DISPOSER', 'WIRING', 'ACCLINK', 'LINKAPI', 'ACCDELEG', 'TXNDELEG'], kani=[], level='proof', title='Receiver link credit',
         lemmas={'LINKFLOW': ['lemma_c09_threshold_reached_within_credit']},
         assumptions=[ASYNC,
             'parking_lot::RwLock and Arc<AtomicU32> erased: disposal concurrent with recv from another task is not modelled',
             'the overrun error being turned into a detach frame by the link/engine is not verified']),
     'C12': dict(
         probes=[COMPOSITE_VARIANTS],
-        units=['CONN', 'CONNENG', 'HEADERS', 'HDRCODEC', 'HANDLES'],
+        units=['CONN', 'CONNENG', 'HEADERS', 'HDRCODEC', 'HANDLES', 'LCONNDELEG'],
         lemmas={'CONNENG': ['lemma_extc_trans']}, kani=[], level='proof', title='Connection lifecycle',
         assumptions=[ASYNC,
             'that the connection engine event loop (select!) drives only these transition functions, and calls send_open/send_close once each, is not verified',
@@ -216,7 +219,7 @@ PROPS = {
             'header-before-open (transport protocol-header exchange), a peer close always being answered, handle results, EOF handling and flushing of queued frames are liveness/glue and are NOT decided',
             'ConnectionEngine::{on_incoming,on_outgoing_session_frames,on_heartbeat,forward_to_session} are under contract (unit CONNENG) against a stand-in connection endpoint carrying the CONN contracts; close_connection / wait_for_remote_close / on_control / on_error / event_loop (select!) are not']),
     'C17': dict(
-        units=['CONN', 'CONNENG', 'FRAMEDEC', 'BUILDER', 'TRANSPORT', 'TIMERS'], kani=[], level='proof', title='Negotiated limits (channel-max; idle time-out bookkeeping)',
+        units=['CONN', 'CONNENG', 'FRAMEDEC', 'BUILDER', 'TRANSPORT', 'TIMERS', 'LCONNDELEG'], kani=[], level='proof', title='Negotiated limits (channel-max; idle time-out bookkeeping)',
         assumptions=[
             'DECIDED: channel-max; the VALUES the timers are armed with (heartbeat period from the peer\'s idle-time-out, 0/unset => none; local deadline = configured idle-time-out, advertised value = half of it); one empty frame per heartbeat tick; none after the local Close. the local idle timer is restarted by every incoming item and by nothing the local side sends, and an elapsed timer is reported as IdleTimeoutElapsed (Transport::poll_next / start_send, unit TRANSPORT; the timer is a stand-in with a restart counter and an elapsed flag). NOT DECIDED: the timed behaviour itself (tokio Interval/Sleep): no clock in either verifier',
             'slab::Slab modelled as a partial map whose vacant key is unoccupied']),
@@ -239,20 +242,20 @@ PROPS = {
             'controller side (unit TXNCTRL): declare_on_link, discharge_on_link, send_on_control_link, Transaction::discharge, OwnedTransaction::discharge, post_inner, TransactionRetirement::retire, DeliveryState::{accepted_or_else, declared_or_else} are under contract with the control link / sender / receiver as ghost-trace stand-ins and the Mutex around the control link erased; post_ref_inner, acquisition and the rollback-on-drop path are not',
             'the coordinator (unit TXNCOORD): on_declare, on_discharge, reject, handle_delivery_result under contract with the session requests and the receiver link as ghost-trace stand-ins', 'NOT DECIDED: the coordinator event loop (select!), abort of the remaining ids on Drop / when the controlling link goes away, several concurrent control links, freshness of a transaction id over the whole history (only among live ids)']),
     'C11': dict(
-        units=['SESSION', 'FRAMEENC', 'CONN', 'SENDSPLIT', 'CONNENG', 'ACCSESS', 'LINKATTACH', 'LINK', 'WIRING', 'ACCLINK'],
+        units=['SESSION', 'FRAMEENC', 'CONN', 'SENDSPLIT', 'CONNENG', 'ACCSESS', 'LINKATTACH', 'LINK', 'WIRING', 'ACCLINK', 'ACCDELEG', 'TXNDELEG', 'LCONNDELEG'],
         lemmas={'SENDSPLIT': ['lemma_link_expected'], 'FRAMEENC': ['lemma_expected_properties']}, kani=[], level='proof', title='Identifiers',
         assumptions=[ASYNC, ENGINE,
             'fewer than 2^32 link handles are live in one session (handle = slab key as u32)',
             'slab::Slab is modelled as a partial map whose vacant key is unoccupied (trusted stand-in)',
             'concurrent attaches are serialised by the session engine (not verified)']),
     'C13': dict(
-        units=['SESSION', 'LINK', 'SESSENG', 'LINKDETACH', 'SENDSPLIT', 'RECVLOOP', 'LINKATTACH', 'LINKFLOW', 'ACCSESS', 'HANDLES', 'WIRING', 'ACCLINK', 'LINKAPI', 'CONN'],
+        units=['SESSION', 'LINK', 'SESSENG', 'LINKDETACH', 'SENDSPLIT', 'RECVLOOP', 'LINKATTACH', 'LINKFLOW', 'ACCSESS', 'HANDLES', 'WIRING', 'ACCLINK', 'LINKAPI', 'CONN', 'ACCDELEG', 'TXNDELEG', 'LCONNDELEG'],
         lemmas={'SESSENG': ['lemma_ext_trans']}, kani=[], level='proof', title='Session and link lifecycles',
         assumptions=[ASYNC, ENGINE,
             '"returns only after the peer\'s answer" is decided as a safety clause (detach / close / end_session / wait_for_remote_end return Ok only once the peer\'s detach / End has been taken from the incoming channel; units LINKDETACH, SESSENG); "answered no later than the next operation" and "within bounded time" are liveness statements and are not decided',
             'Drop impls racing with the engine are not decided']),
     'C14': dict(
-        units=['CONNENG', 'SESSENG', 'LINK', 'LINKFLOW', 'SENDSPLIT', 'RECVLOOP', 'DISPOSER', 'HANDLES', 'DELIVFUT', 'WIRING', 'ACCLINK', 'CONN'], kani=[], level='proof',
+        units=['CONNENG', 'SESSENG', 'LINK', 'LINKFLOW', 'SENDSPLIT', 'RECVLOOP', 'DISPOSER', 'HANDLES', 'DELIVFUT', 'WIRING', 'ACCLINK', 'CONN', 'ACCDELEG', 'TXNDELEG', 'LCONNDELEG'], kani=[], level='proof',
         title='Failure propagation (the safety half: WHICH error a stopped handle reports; stop reason published before the channels close)',
         assumptions=[
             'DECIDED (necessary conditions, per function): (a) the event loops of the connection and session engines publish the stop reason BEFORE they close the channels through which handles, sessions and links learn of the stop (an order obligation at the close calls), and that reason is the peer\'s Close / End error, the peer\'s plain close / end, or the connection\'s fate, as derived from the loop\'s outcome (tails of ConnectionEngine::event_loop and SessionEngine::event_loop, rule R32); (b) the result handed to the ConnectionHandle / SessionHandle is the peer\'s error when the peer supplied one; (c) every link operation under contract that finds the channel to its session closed (send_transfer, send_flow, dispose, dispose_consecutive, send_detach, recv_inner) fails with SessionStopped(reason read from the published cell) -- at once, without waiting -- and with IllegalState only when no reason was recorded',
@@ -271,7 +274,7 @@ PROPS = {
             'never-blocks-forever and isolation between connections are not decided',
             'handlers of peer input carry no precondition on the peer-controlled arguments']),
     'C07': dict(
-        units=['SESSION', 'SESSENG', 'ACCSESS', 'TXN'], kani=[], level='proof',
+        units=['SESSION', 'SESSENG', 'ACCSESS', 'TXN', 'ACCDELEG', 'TXNDELEG'], kani=[], level='proof',
         title='Session flow control',
         assumptions=[
             'the session engine calls these functions in the order frames arrive/are queued (select! loop not verified)',
